@@ -141,6 +141,11 @@ static long n_lookup_cmp_checks;
 /* full observation of the map: every key of the universe, size, min, max */
 static void observe_map(qtreetbl_t *t, const model_t *m, const char *after) {
     int n = m_count(m);
+    /* invalid arguments are refused with EINVAL; they run first so that any effect they had is seen below */
+    errno = 0; if (t->getobj(t, NULL, 1, NULL, false) != NULL || errno != EINVAL) vc_viol("map:einval", "getobj(NULL name) not refused with EINVAL");
+    for (int i = 0; i < U; i += 3) { errno = 0; if (t->putobj(t, KEY[i].b, 0, "y", 1) != false || errno != EINVAL) vc_viol("map:einval", "putobj(namesize 0) not refused with EINVAL"); }
+    errno = 0; if (t->putobj(t, NULL, 3, "y", 1) != false || errno != EINVAL) vc_viol("map:einval", "putobj(NULL name) not refused with EINVAL");
+    errno = 0; if (t->removeobj(t, NULL, 2) != false || errno != EINVAL) vc_viol("map:einval", "removeobj(NULL name) not refused with EINVAL");
     for (int i = 0; i < U; i++) for (int nm = 0; nm < 2; nm++) {
         void *kb = fresh(KEY[i].b, KEY[i].n);
         size_t sz = 12345; errno = 0; ncmp = 0;
@@ -174,9 +179,6 @@ static void observe_map(qtreetbl_t *t, const model_t *m, const char *after) {
         else if (ns != KEY[want].n || memcmp(nmp, KEY[want].b, ns)) vc_viol("map:minmax-key", "after %s: find_%s returned the wrong key (expected universe key %d)", after, mx ? "max" : "min", want);
         if (nmp) hold(nmp, KEY[want < 0 ? 0 : want].b, want < 0 ? 0 : KEY[want].n, "find_min/max");
     }
-    /* invalid arguments are refused with EINVAL and change nothing */
-    errno = 0; if (t->getobj(t, NULL, 1, NULL, false) != NULL || errno != EINVAL) vc_viol("map:einval", "getobj(NULL name) not refused with EINVAL");
-    errno = 0; if (t->putobj(t, "x", 0, "y", 1) != false || errno != EINVAL) vc_viol("map:einval", "putobj(namesize 0) not refused with EINVAL");
 }
 
 /* copies taken BEFORE the operation under test: they must survive replacement / removal / clear of their element */
